@@ -129,6 +129,11 @@ def _transcendental(case):
     return False
 
 
+def _dict_subset(nd):
+    return (nd.get("t") == "cls" and nd.get("style") == "dict" and nd.get("args") is not None
+            and G.arg_names(nd) is not None and len(nd["args"]) < len(G.arg_names(nd)))
+
+
 def _via_rate(case):
     if case.get("wrap", "none") != "none":
         return True
@@ -213,6 +218,14 @@ def _labels(case, ctx):
                 ctx.label("args:None")
             if nd.get("style"):
                 ctx.label("style:" + nd["style"])
+            if nd.get("style") == "dict":
+                do = nd.get("dorder")
+                ctx.label("dict:" + ("by_unique_keys" if G.arg_names(nd) is None else "by_argument_names"))
+                if do and list(do) != sorted(do):
+                    ctx.label("dict:permuted", "dict:permuted:" + ("by_unique_keys" if G.arg_names(nd) is None else
+                                                                   "by_argument_names"))
+                if _dict_subset(nd):
+                    ctx.label("dict:subset_with_defaults")
             for a in nd.get("args") or []:
                 if a.get("t") == "name":
                     ctx.label("arg:named")
@@ -263,6 +276,8 @@ def _check_expr(case, ctx, sub=None):
         return rxn["prod"].get(k, 0) - rxn["reac"].get(k, 0) - rxn.get("inact", {}).get(k, 0)
 
     cfgs = ["math", "numpy", "sympy", "units"]
+    # a dict naming only the leading arguments of a class with defaults (Eyring, EyringHS): own clause (D-C16f)
+    subset = any(_dict_subset(nd) for nd in G.case_nodes(case))
     # Units with the *default* backend (math): transcendental functions of `math` ignore units (documented in
     # chempy.units.Backend), so this configuration is only meaningful where no unit survives inside exp/sin/log/**:
     # no such function at all, or only SI-coherent units, or a unit system whose dimensionless combinations cancel
@@ -273,7 +288,12 @@ def _check_expr(case, ctx, sub=None):
     for cfg in cfgs:
         mode = "units" if cfg.startswith("units") else "float"
         alts, amb = refs[mode]
-        if cfg == "sympy" and _has_log10_expr(case):
+        if subset:
+            got = sut(_evaluate, case, cfg)
+            if is_err(got):
+                ctx.fail("dict_subset_with_defaults_raises:" + got.type, config=cfg, error=got.msg)
+                continue
+        elif cfg == "sympy" and _has_log10_expr(case):
             got = sut(_evaluate, case, cfg)
             if is_err(got):
                 ctx.fail("sympy_backend_raises:" + got.type, config=cfg, error=got.msg)
@@ -554,7 +574,8 @@ SUBCHECKS = [
              tolerances={"rtol_of_condition_scale": RTOL, "from_rateconst": RTOL_RT}),
     SubCheck("classes", check_expr, strategy=_with_sub(G.class_cases(), "classes"), quick=1800, thorough=50000,
              rule="one instance of every expression class, physically wide argument ranges, list/dict/scalar "
-                  "construction, named and nested arguments; direct call or Reaction.rate",
+                  "construction (dict keys in any insertion order, by argument_names or unique_keys, trailing "
+                  "defaults omitted), named and nested arguments; direct call or Reaction.rate",
              tolerances={"rtol_of_condition_scale": RTOL}),
     SubCheck("trees", check_expr, strategy=_with_sub(G.tree_cases(max_depth=4), "trees"), quick=1800, thorough=60000,
              rule="random trees (depth <= 4) over + - * / ** neg exp log10 with class, Constant, Symbol and literal "
